@@ -15,7 +15,8 @@ from harness import core
 
 # consecutive entries 1-2 share geometry and L0 but not r0; entry 3 has a stencil longer than the outer scale
 PARAMS = [(0.5, 0.2, 20.0), (0.5, 0.05, 20.0), (0.5, 0.2, 3.0), (0.1, 0.15, 50.0), (0.05, 0.1, 10.0), (0.005, 0.1, 200.0), (0.02, 0.15, 1000.0),
-          (0.5, 5.0e4, 20.0), (0.01, 1.0e4, 10.0)]   # (pixel scale, r0, L0); the last two: very weak turbulence (pixel/r0 1e-5, 1e-6)
+          (0.5, 5.0e4, 20.0), (0.01, 1.0e4, 10.0),
+          (1, 0.3, 20.0), (2, 0.5, 30.0)]   # (pixel scale, r0, L0); the last two: very weak turbulence (pixel/r0 1e-5, 1e-6); then a pixel scale given as a Python int
 
 
 class ScriptedGenerator(np.random.Generator):
@@ -304,6 +305,28 @@ def run(run):
                                                                                         rebuilt_from=list(first)))
     run.traces += n_rebuilt
     run.aux["objects_rebuilt_with_other_parameters"] = n_rebuilt
+    # ---- the conditional law is about Z = the rows generated so far: after every step the stored rows are the previous ones moved
+    #      down by one (nothing stale, nothing lost), for both variants and for stencils longer than the exposed screen
+    n_hist = 0
+    for variant, req, extra in (("vk", 4, dict(n_columns=2)), ("vk", 5, dict(n_columns=3)), ("fried", 4, dict(stencil_length_factor=1)),
+                                ("fried", 5, dict(stencil_length_factor=2)), ("fried", 3, dict(stencil_length_factor=4))):
+        cls = ips.PhaseScreenVonKarman if variant == "vk" else ips.PhaseScreenKolmogorov
+        try:
+            obj = cls(req, 0.5, 0.2, 20.0, random_seed=5, **extra)
+        except Exception:  # noqa
+            continue
+        prev = np.array(obj._scrn, copy=True)
+        for step in range(6):
+            obj.add_row()
+            cur = np.array(obj._scrn, copy=True)
+            n_hist += 1
+            if cur.shape != prev.shape or not np.array_equal(cur[1:], prev[:-1]):
+                stale = [int(r_) for r_ in range(1, min(len(cur), len(prev))) if not np.array_equal(cur[r_], prev[r_ - 1])]
+                run.violation("%s:stored-rows-are-not-the-extruded-history" % variant, dict(req=req, step=step + 1, rows_wrong=stale, **extra),
+                              dict(kind="history", variant=variant, req=req, extra=extra))
+                break
+            prev = cur
+    run.traces += n_hist
     stab = []
     for n, ncol in ((4, 2), (6, 2), (8, 2), (5, 3)) if quick else ((4, 2), (6, 2), (8, 2), (5, 3), (12, 2), (16, 2), (9, 4)):
         rho, res = vk_stability(ips, n, ncol, PARAMS[0])
@@ -326,6 +349,18 @@ def run(run):
 def replay(run, case):
     ips = _ips()
     warnings.simplefilter("ignore")
+    if case.get("kind") == "history":
+        cls = ips.PhaseScreenVonKarman if case["variant"] == "vk" else ips.PhaseScreenKolmogorov
+        obj = cls(case["req"], 0.5, 0.2, 20.0, random_seed=5, **case["extra"])
+        prev = np.array(obj._scrn, copy=True)
+        for step in range(6):
+            obj.add_row()
+            cur = np.array(obj._scrn, copy=True)
+            if cur.shape != prev.shape or not np.array_equal(cur[1:], prev[:-1]):
+                run.violation("%s:stored-rows-are-not-the-extruded-history" % case["variant"], dict(step=step + 1), case)
+                break
+            prev = cur
+        return
     if case.get("kind") == "stability":
         rho, res = vk_stability(ips, case["n"], case["ncol"], PARAMS[0])
         if rho is not None and (not (rho < 1 - 1e-9) or res > 1e-4):
